@@ -5,7 +5,7 @@ Three parties per case:
     `menpo.model.{PCAVectorModel, PCAModel}` (vector-, PointCloud- and Image-backed), public API only;
   * the property oracle (this file, numpy + Fractions, independent of the Lean model);
   * the Lean model (`Core/C10Linear.lean`, `Core/C10Book.lean`) through `Drive/C10.lean`:
-      - `pca` / `covc`: certificate check of the factors the code returned against the exact rational
+      - `pca`: certificate check of the factors the code returned against the exact rational
         covariance of the data (orthonormality, eigen-equation, eigenvalue = sample variance, trace,
         training reconstruction) — the definitions the theorems of `Props/C10.lean` are about;
       - `lin`: project / instance / reconstruct / project_out evaluated exactly on the same components;
